@@ -429,7 +429,8 @@ def arr_sum(a):
     """np.sum / .sum(): T(n) of the exclusive prefix-sum function. EXACT (recurrence)."""
     M.use("sum (recurrence)")
     f = a.snapshot()
-    C = M.exclusive_prefix(f, a.length)
+    C = M.exclusive_prefix(f, a.length, a)
+    M.maybe_monotone(C, f, a.length)
     ctx().ghost.setdefault("sums", []).append((C, f, a.length))
     return C(I(a.length))
 
